@@ -136,6 +136,8 @@ fn run(input: RunInput) -> ScenFuture {
         let net = move || slot2.lock().unwrap().clone();
         drop(s);
 
+        // the application may keep a Peer handle (obtained before the shutdown) for as long as it likes
+        let held_peer: Option<anemo::Peer> = if w.flag("app_keeps_peer_handle", 0.3) { net().and_then(|n| n.peer(peers[0].peer_id)) } else { None };
         // ---- in-flight work ----
         let pending: Arc<Mutex<Vec<(String, Option<Result<(), String>>, u64)>>> = Default::default();
         let track = |name: String, fut: std::pin::Pin<Box<dyn std::future::Future<Output = Result<(), String>> + Send>>| {
@@ -276,8 +278,9 @@ fn run(input: RunInput) -> ScenFuture {
                 desc = "runtime-teardown".into();
             }
         }
-        w.event(format!("{desc}:{mixdesc}"));
+        w.event(format!("{desc}:{mixdesc}{}", if held_peer.is_some() { "+held-peer-handle" } else { "" }));
         w.probe(&format!("mode-{desc}"));
+        if held_peer.is_some() { w.probe("app-keeps-peer-handle"); }
         for m in &mix { w.probe(&format!("in-flight-{m}")); }
         // ---- runtime teardown with handles alive (modes 4, 5) ----
         if mode >= 4 {
@@ -309,7 +312,9 @@ fn run(input: RunInput) -> ScenFuture {
             let n0 = net().unwrap();
             w.check(n0.is_closed(), "not-closed-after-shutdown", desc.clone(), || "is_closed() is false after shutdown() returned".into());
             w.check(n0.peers().is_empty(), "peers-listed-after-shutdown", desc.clone(), || format!("{} peers listed after shutdown", n0.peers().len()));
-            w.check(!w.fabric.is_bound(s_addr), "socket-not-released-at-shutdown-return", format!("mix={mixdesc}"), || "the UDP address is still bound when shutdown() returns".into());
+            if held_peer.is_none() {
+                w.check(!w.fabric.is_bound(s_addr), "socket-not-released-at-shutdown-return", format!("mix={mixdesc}"), || "the UDP address is still bound when shutdown() returns".into());
+            }
             let live = clones.load(Ordering::SeqCst);
             w.check(live == 0, "service-clones-leaked", format!("mix={mixdesc}"), || format!("{live} clones of the user's service are still alive after shutdown() returned (handlers started: {})", started.load(Ordering::SeqCst)));
             w.check(weak.upgrade().is_none(), "weak-ref-upgrades-after-shutdown", desc.clone(), || "NetworkRef::upgrade() returned a handle after shutdown".into());
@@ -331,6 +336,11 @@ fn run(input: RunInput) -> ScenFuture {
                 Ok(flags) => {
                     w.check(flags == (true, true, true, true, true, true), "api-call-succeeds-after-shutdown", format!("{flags:?}"), || format!("(connect, rpc, disconnect, subscribe, shutdown, connect_with_peer_id) returned errors = {flags:?}"));
                 }
+            }
+            // (with a Peer handle kept by the application the socket check comes last, so that a
+            // failure there cannot mask any of the other release checks of this run)
+            if held_peer.is_some() && w.fabric.is_bound(s_addr) {
+                w.violate("socket-not-released-at-shutdown-return", "application-holds-a-Peer-handle", "the UDP address is still bound when shutdown() returns while the application holds a Peer handle obtained before the shutdown".to_string());
             }
             // the address can be re-bound at once and the new network is dialable
             let mut spec = w.spec(1, cfg.clone());
@@ -395,7 +405,9 @@ fn run(input: RunInput) -> ScenFuture {
                 }
                 sleep_ms(100).await;
             }
-            if mode == 2 {
+            if held_peer.is_some() && w.fabric.is_bound(s_addr) && clones.load(Ordering::SeqCst) == 0 && mode == 2 {
+                w.violate("socket-not-released-at-shutdown-return", "application-holds-a-Peer-handle", "after drop-shutdown everything was released except the UDP address, which stays bound while the application holds a Peer handle".to_string());
+            } else if mode == 2 {
                 w.check(released, "drop-shutdown-did-not-release", format!("mix={mixdesc}"), || format!("{} ms after the last handle was dropped the socket is bound = {}, live service clones = {}", limit_ms, w.fabric.is_bound(s_addr), clones.load(Ordering::SeqCst)));
                 w.check(weak.upgrade().is_none(), "weak-ref-upgrades-after-shutdown", desc.clone(), || "NetworkRef::upgrade() after drop".into());
                 sub.drain(w.now_ns());
@@ -409,13 +421,14 @@ fn run(input: RunInput) -> ScenFuture {
                     let r2 = tokio::time::timeout(Duration::from_secs(120), n0.shutdown()).await;
                     w.check(r2.is_ok(), "shutdown-hangs", "after-endpoint-failure", || "shutdown() hung after the endpoint driver failed".into());
                     w.check(n0.is_closed(), "not-closed-after-shutdown", "after-endpoint-failure", || "is_closed() false".into());
-                    w.check(!w.fabric.is_bound(s_addr), "socket-not-released-at-shutdown-return", "after-endpoint-failure", || "address still bound".into());
+                    w.check(!w.fabric.is_bound(s_addr), "socket-not-released-at-shutdown-return", if held_peer.is_some() { "application-holds-a-Peer-handle" } else { "after-endpoint-failure" }, || "address still bound".into());
                 }
             }
         }
         w.sample("run", json!({"mode": desc, "mix": mixdesc, "shutdown_idle_timeout_ms": idle_wait_ms, "lossy": lossy,
             "pending": pending.lock().unwrap().iter().map(|(n, r, _)| format!("{n}:{}", match r { None => "pending", Some(Ok(())) => "ok", Some(Err(_)) => "err" })).collect::<Vec<_>>()}));
         let out = w.finish();
+        drop(held_peer);
         drop((peers, late_dialer));
         out
     })
